@@ -15,6 +15,7 @@ static ldb_t *db;
 static d_opts_t O;
 static char dbdir[1024];
 static int nthreads, nops, mode;
+static uint32_t g_bits;
 static volatile long g_progress = 0;
 static volatile int g_done = 0;
 
@@ -24,7 +25,7 @@ static uint32_t trn(thr_t *t, uint32_t n) { return n ? trnd(t) % n : 0; }
 
 static size_t plen(thr_t *t) {
   uint32_t r = trn(t, 100);
-  if (mode == 1) return r < 30 ? 20000 + trn(t, 30000) : 50 + trn(t, 500);
+  if (mode == 1 || mode == 3) return r < 30 ? 20000 + trn(t, 30000) : 50 + trn(t, 500);
   if (r < 6) return 15000 + trn(t, 30000);
   return 5 + trn(t, 400);
 }
@@ -101,10 +102,26 @@ static void op_scan(thr_t *t) {
 }
 static void op_maint(thr_t *t) {
   uint32_t r = trn(t, 100);
+  if (mode == 3 && r < 70) r = 95;      /* bak mode: most maintenance calls are backups, taken while the others write, flush and compact */
   if (r < 40) { int rc; EV("Call", "\"op\":\"flush\""); rc = ldb_test_compact_memtable(db); EV("Ret", "\"op\":\"flush\",\"rc\":%d", rc); }
   else if (r < 80) { int level = trn(t, 4); EV("Call", "\"op\":\"compact\",\"level\":%d", level); ldb_test_compact_range(db, level, NULL, NULL); EV("Ret", "\"op\":\"compact\",\"rc\":0"); }
   else if (r < 90) { char *v = NULL; EV("Call", "\"op\":\"prop\""); ldb_property(db, "leveldb.stats", &v); if (v) ldb_free(v); { uint64_t sz; ldb_range_t rg; rg.start = d_key(0); rg.limit = d_key(NK - 1); ldb_approximate_sizes(db, &rg, 1, &sz); } EV("Ret", "\"op\":\"prop\",\"rc\":0"); }
-  else { char bak[1100]; int rc; snprintf(bak, sizeof(bak), "%s.bak%u", dbdir, trnd(t) % 1000); d_rmrf(bak); EV("Call", "\"op\":\"backup\""); rc = ldb_backup(db, bak); EV("Ret", "\"op\":\"backup\",\"rc\":%d", rc); d_rmrf(bak); }
+  else {
+    /* backup while other threads write, flush and compact; the backup is then opened and scanned by ANOTHER process (this process's
+       hook stream describes one database handle only) */
+    char bak[1100], cmd[2600], line[4096]; int rc, orc = -1, st = -1; FILE *pf; static char self[1024]; ssize_t sl;
+    snprintf(bak, sizeof(bak), "%s.bak%u_%d", dbdir, trnd(t) % 1000, t->idx); d_rmrf(bak);
+    EV("Call", "\"op\":\"backup\""); rc = ldb_backup(db, bak);
+    line[0] = 0;
+    if (rc == 0) {
+      sl = readlink("/proc/self/exe", self, sizeof(self) - 1); if (sl > 0) self[sl] = 0;
+      snprintf(cmd, sizeof(cmd), "'%s' scanbak '%s' %u", self, bak, g_bits);
+      pf = popen(cmd, "r");
+      if (pf) { if (fgets(line, sizeof(line), pf)) { char *nl = strchr(line, '\n'); if (nl) *nl = 0; if (sscanf(line, "%d %d", &orc, &st) != 2) { orc = -2; st = -2; } } pclose(pf); }
+    }
+    { char *items = strchr(line, '['); EV("Ret", "\"op\":\"backup\",\"rc\":%d,\"open_rc\":%d,\"status\":%d,\"items\":%s", rc, orc, st, items ? items : "[]"); }
+    d_rmrf(bak);
+  }
 }
 
 static void *worker(void *arg) {
@@ -133,16 +150,34 @@ static void *watchdog(void *arg) {
   return NULL;
 }
 
+static int scanbak_main(int argc, char **argv) {
+  /* conc scanbak <dir> <optbits>: open a backup, print "open_rc status [[rank,id],...]" */
+  ldb_t *b = NULL; int rc, n = 0; ldb_iter_t *it;
+  if (argc < 4) return 2;
+  d_seed(1); d_init_keys(); d_make_opts(&O, (uint32_t)strtoul(argv[3], NULL, 0));
+  rc = ldb_open(argv[2], &O.o, &b);
+  if (rc != 0) { printf("%d -1 []\n", rc); return 0; }
+  it = ldb_iterator(b, NULL);
+  printf("0 ");
+  { char items[4096]; int p = 0; items[0] = 0;
+    for (ldb_iter_first(it); ldb_iter_valid(it) && n < 100; ldb_iter_next(it)) { ldb_slice_t kk = ldb_iter_key(it), vv = ldb_iter_value(it); p += sprintf(items + p, "%s[%d,%d]", n++ ? "," : "", d_rankof(kk), d_valid(vv.data, vv.size)); }
+    printf("%d [%s]\n", ldb_iter_status(it), items); }
+  ldb_iter_destroy(it); ldb_close(b);
+  return 0;
+}
+
 int main(int argc, char **argv) {
   int seed, i, rc; pthread_t th[16], wd; thr_t ts[16]; uint32_t bits;
+  if (argc >= 2 && !strcmp(argv[1], "scanbak")) return scanbak_main(argc, argv);
   if (argc < 6) { fprintf(stderr, "usage: conc seed threads ops trace dbdir [mode]\n"); return 2; }
   seed = atoi(argv[1]); nthreads = atoi(argv[2]); nops = atoi(argv[3]);
   snprintf(dbdir, sizeof(dbdir), "%s", argv[5]);
-  mode = argc > 6 ? (!strcmp(argv[6], "stall") ? 1 : !strcmp(argv[6], "closerace") ? 2 : 0) : 0;
+  mode = argc > 6 ? (!strcmp(argv[6], "stall") ? 1 : !strcmp(argv[6], "closerace") ? 2 : !strcmp(argv[6], "bak") ? 3 : 0) : 0;
   if (nthreads > 16) nthreads = 16;
   d_seed((uint64_t)seed * 2654435761ULL + 17); d_init_keys();
   bits = d_rnd() & ~(3u << 15);            /* bytewise comparator */
   bits &= ~(3u << 1);                      /* 64 KiB write buffer: memtable switches happen often */
+  g_bits = bits;
   d_make_opts(&O, bits);
   d_rmrf(dbdir);
   lcdb_verif_open(argv[4]);
